@@ -115,7 +115,8 @@ def __sync__(
     global INSTANCE_CONFIG
 
     try:
-        db = DBS.get(dbname)
+        dbs = DBS
+        db = dbs.get(dbname)
         if db is None:
             assert user_schema is not None
             assert reflection_cache is not None
@@ -129,7 +130,7 @@ def __sync__(
                 reflection_cache_unpacked,
                 database_config_unpacked,
             )
-            DBS = DBS.set(dbname, db)
+            dbs = dbs.set(dbname, db)
         else:
             updates = {}
 
@@ -142,17 +143,26 @@ def __sync__(
 
             if updates:
                 db = db._replace(**updates)
-                DBS = DBS.set(dbname, db)
+                dbs = dbs.set(dbname, db)
 
         if global_schema is not None:
-            GLOBAL_SCHEMA = pickle.loads(global_schema)
+            global_schema_unpacked = pickle.loads(global_schema)
 
         if system_config is not None:
-            INSTANCE_CONFIG = pickle.loads(system_config)
+            system_config_unpacked = pickle.loads(system_config)
 
     except Exception as ex:
         raise state.FailedStateSync(
             f'failed to sync worker state: {type(ex).__name__}({ex})') from ex
+
+    # Everything has been unpickled successfully, commit the new state.
+    # A failed sync must not leave the worker partially updated, because
+    # the server only records what was sent after a successful sync.
+    DBS = dbs
+    if global_schema is not None:
+        GLOBAL_SCHEMA = global_schema_unpacked
+    if system_config is not None:
+        INSTANCE_CONFIG = system_config_unpacked
 
     return db
 
